@@ -210,6 +210,10 @@ def ascii_table(
 
             if numpy.isnat(value):
                 return None
+            if numpy.datetime_data(value.dtype)[0] in ("Y", "M"):
+                # calendar units have no fixed length in seconds
+                months = int(value.astype("timedelta64[M]").astype("int64"))
+                return SimpleNamespace(months=months, days=0, nanoseconds=0)
             seconds = value / numpy.timedelta64(1000000000, "ns")
             return SimpleNamespace(
                 months=0, days=int(seconds // 86400), nanoseconds=(seconds % 86400) * 1e9
